@@ -4,7 +4,8 @@ import numpy as np
 HERE = os.path.dirname(os.path.abspath(__file__))
 VERIF = os.path.dirname(HERE)
 sys.path.insert(0, os.path.join(VERIF, 'harness'))
-from qsccap import Capture
+from qsccap import Capture, LogCapture
+import logging
 import inputs, corr_gen, corr_hand, oracles
 from qsc import Qsc
 
@@ -26,10 +27,12 @@ class Ctx:
         if key not in self._objs:
             out = []
             for c, _ in inputs.cases(self.seed * 1000 + 7 + hash((order, nphi)) % 97, count, order=order, nphi=nphi):
-                with Capture() as cap:
-                    q = Qsc(**c['kwargs'])
-                    if shear and q.order == 'r3':
-                        q.calculate_shear()
+                with LogCapture(logging.WARNING) as lc:
+                    with Capture() as cap:
+                        q = Qsc(**c['kwargs'])
+                        if shear and q.order == 'r3':
+                            q.calculate_shear()
+                cap.newton_warned = any('did not get close' in r.getMessage() for r in lc.records)
                 out.append((c, q, cap))
             self._objs[key] = out
         return self._objs[key]
@@ -87,19 +90,226 @@ def oracle_objs(fn, orders=('r1', 'r2', 'r3'), shear=False, **kw):
 
 
 # ------------------------------------------------------------------------------------------------------------------
+import thmlist
+import core as _core
+
+
+def thms(*modules):
+    out = []
+    for m in modules:
+        out += thmlist.theorems(thmlist.module_path(_core.LEAN, m))
+    return out
+
+
+def eqv_theorems(mods):
+    """expected equivariance theorems (Spec/eqv_expected.json): Eqv.<Mod>.<def>_eqv"""
+    exp = json.load(open(os.path.join(VERIF, 'Spec', 'eqv_expected.json')))['modules']
+    return ['Eqv.%s.%s_eqv' % (m, d) for m in mods for d in exp[m]['proved']]
+
+
+def corr_hand_kernels(names):
+    def run(ctx):
+        rng = ctx.rng
+        rs = []
+        objs = [q for _, q, _ in ctx.all_orders(count=2 if not ctx.thorough else 5, shear=True)]
+        for nm in names:
+            if nm == 'specdiff':
+                ns = list(range(1, 201)) if ctx.thorough else list(range(1, 33)) + [int(x) for x in rng.integers(33, 201, size=6)]
+                rs.append(corr_hand.corr_specdiff(rng, ns, ((0.0, 2 * np.pi), (0.3, 1.7), (-2.0, 5.0)) if ctx.thorough else ((0.0, 2 * np.pi), (0.3, 1.7))))
+            elif nm == 'interp':
+                rs.append(corr_hand.corr_interp(rng, 120 if ctx.thorough else 30))
+            elif nm == 'newton':
+                rs.append(corr_hand.corr_newton(rng, 180 if ctx.thorough else 36))
+            elif nm == 'helicity':
+                rs.append(corr_hand.corr_helicity(rng, objs, extra=120 if ctx.thorough else 24))
+            elif nm == 'axis':
+                rs.append(corr_hand.corr_axis(rng, objs))
+            elif nm == 'tofourier':
+                rs.append(corr_hand.corr_tofourier(rng, 100 if ctx.thorough else 24))
+            elif nm == 'rsing':
+                rs.append(corr_hand.corr_rsing(rng, [q for q in objs if q.order != 'r1'], extra=200 if ctx.thorough else 40))
+            elif nm == 'fmin':
+                rs.append(corr_hand.corr_fmin(rng, 100 if ctx.thorough else 25))
+            elif nm == 'vmec':
+                rs.append(corr_hand.corr_vmec(rng, objs))
+            elif nm == 'shear':
+                rs.append(corr_hand.corr_shear(rng, objs))
+            elif nm == 'dof':
+                rs.append(corr_hand.corr_dof(rng, 40 if ctx.thorough else 8))
+        return corr_hand.merge(rs)
+    return run
+
+
+def corr_diag_sequences(ctx):
+    import corr_diag
+    objs = []
+    for o in ('r1', 'r2', 'r3'):
+        objs += ctx.objects(o, count=1 if not ctx.thorough else 3, nphi=15)
+    q = Qsc.from_paper('precise QH', nphi=25)     # sentinel-bearing singularity profile
+    objs.append((dict(kind='named', name='precise QH', kwargs=dict(name='precise QH', nphi=25)), q, None))
+    r = corr_diag.run(ctx.rng, objs, nseq=4 if ctx.thorough else 2, seqlen=8 if ctx.thorough else 5, heavy=ctx.thorough)
+    ctx.diag_failures = r['failures']
+    return dict(evaluations=r['evaluations'], disagreements=r['disagreements'], samples=r['samples'], distinct=r['distinct'],
+                unchecked=['not executable in this sandbox: ' + x for x in r.get('not_executable', [])])
+
+
+def oracle_diag(ctx):
+    fs = getattr(ctx, 'diag_failures', [])
+    return fs, dict(evaluations=len(fs) + 1, distinct=1, samples=[], clauses=['solution attribute changed by a diagnostic', 'result depends on the call history'])
+
+
+def oracle_multi(*fns, orders=('r1', 'r2', 'r3'), shear=False, count=None):
+    def run(ctx):
+        st = oracles.Stats()
+        objs = []
+        for o in orders:
+            objs += ctx.objects(o, count=count, shear=shear)
+        for fn in fns:
+            fn(objs, st)
+        return st.out()
+    return run
+
+
+def oracle_kernels(ctx):
+    st = oracles.Stats()
+    oracles.oracle_C20(st, seed=ctx.seed, thorough=ctx.thorough)
+    oracles.oracle_newton(st, ctx.seed, 80 if ctx.thorough else 20)
+    return st.out()
+
+
+RULE = ('seeded admissible configurations from one PRNG (VERIF_SEED): the 20 named configurations deformed harmonic by harmonic and synthetic axes with nfp 1..5, '
+        'all sign pairs, rs/zc/sigma0/I2/p2/B2s nonzero with probability 1/2, nphi in {15,21,25,31}; rejected unless R0 > 0, curvature bounded away from 0 and the '
+        'first-order solve converged; a case is distinct by its constructor arguments and non-trivial when its profiles are not constant')
+CONTINUUM = ('continuum (differential-field) theorems read np.matmul(d_d_varphi, .) as a derivation; on the grid they hold up to the discretisation error of the '
+             'pseudo-spectral derivative, which is measured by the oracle on a resolution ladder (n, 2n+1, 4n+3), not proved')
+
 PROPS = {}
 
+PROPS['C01'] = dict(
+    lean=['QscProofs.C01'], theorems=['C01.r1', 'C01.r2_J_R1', 'C01.r2_TH_PH', 'C01.r2_comb', 'C01.r3_J_avg', 'C01.sigma_residual_eq', 'C01.sigmaEq_of_residual',
+                                      'C01.axis_outputs', 'C01.rel_odes', 'C01.rel_eq3', 'C01.rel_eq4', 'C01.r3_outputs',
+                                      'NearAxis.C01_r1', 'NearAxis2.C01_r2_J_R1', 'NearAxis4.C01_r2_TH_PH', 'NearAxis3.C01_r2_comb', 'NearAxis5.C01_r3_J_avg'],
+    gen=['Axis', 'Sigma', 'R1d', 'R2', 'R3'],
+    corr=corr_generated(['Axis', 'Sigma', 'R1d', 'R2', 'R3']),
+    oracle=oracle_multi(oracles.oracle_C01),
+    rule=RULE, partial=[CONTINUUM, 'the Newton solve and np.linalg.solve are parameters: the theorems take the sigma-equation and the two linear-system equations as hypotheses (their residuals are measured by C02/C04)',
+                        'the r2 radial clause is stated as d_theta[R]_2 - 3[TH]_3 = 0 (the undetermined third-order tangential displacement Z3 eliminated): [R]_2 and [TH]_3 do not vanish separately for a second-order construction'])
+
+PROPS['C02'] = dict(
+    lean=['QscProofs.C02', 'QscProofs.C20Newton'], theorems=thms('QscProofs.C02') + ['Hand.Newton.newton_sound', 'Hand.Newton.iter_best_decreases'],
+    gen=['Sigma'], corr=corr_merge(corr_generated(['Sigma'], orders=('r1',)), corr_hand_kernels(['newton'])),
+    oracle=lambda ctx: (lambda st: (oracles.oracle_C02(ctx.all_orders(), st), oracles.oracle_C02_wild(st, ctx.seed, 120 if ctx.thorough else 30), oracles.oracle_C02_shooting(ctx.objects('r1'), st) if ctx.thorough else None, st.out())[-1])(oracles.Stats()),
+    rule=RULE, partial=['agreement of iota with an independent shooting solution of the continuous ODE as nphi grows is analysis: decided numerically (thorough tier), not proved',
+                        'convergence of Newton on a given input is not proved: the theorem says a non-converged solve is never silent'])
+
+PROPS['C03'] = dict(
+    lean=['QscProofs.C03', 'QscProofs.C03Axis'], theorems=thms('QscProofs.C03', 'QscProofs.C03Axis'),
+    gen=['Axis', 'R1d'], corr=corr_merge(corr_generated(['Axis', 'R1d'], orders=('r1',)), corr_hand_kernels(['axis'])),
+    oracle=oracle_multi(oracles.oracle_C03, orders=('r1', 'r2')),
+    rule=RULE, partial=[CONTINUUM, 'Frenet-Serret equations on the grid and the second-order quadrature of the Boozer angle are measured; min_R0 relies on the contract of scipy minimize_scalar (Brent)'])
+
 PROPS['C04'] = dict(
-    lean=['QscProofs.C04'],
-    theorems=['C04.r2_eq3', 'C04.r2_eq4', 'C04.r2_eq3_grid', 'C04.r2_eq4_grid', 'C04.r2_system_eq1', 'C04.r2_system_eq2',
-              'C04.r2_solution_satisfies_odes', 'C04.G2_closed_form', 'C04.beta_1s_closed_form', 'C04.B20_statistics'],
-    gen=['R2'],
-    corr=corr_generated(['R2'], orders=('r2', 'r3')),
-    oracle=oracle_objs(oracles.oracle_C04, orders=('r2', 'r3')),
-    rule='seeded admissible configurations (named configurations deformed harmonic by harmonic, synthetic axes; all sign pairs; rs, zc, sigma0, I2, p2, B2s nonzero with probability 1/2); a case is distinct by its constructor arguments and non-trivial when the O(r^2) arrays are not constant',
-    partial=['"to round-off relative to the conditioning of the linear system": the size of the floating-point residual is measured (oracle, bound 1e-13*cond), not proved',
-             'np.linalg.solve is a parameter of the model: the theorems say that ANY solution of the assembled system satisfies the ODEs'],
-)
+    lean=['QscProofs.C04'], theorems=thms('QscProofs.C04'), gen=['R2'],
+    corr=corr_generated(['R2'], orders=('r2', 'r3')), oracle=oracle_multi(oracles.oracle_C04, orders=('r2', 'r3')),
+    rule=RULE, partial=['"to round-off relative to the conditioning of the linear system": the floating-point residual is measured (bound 1e-13*cond), not proved',
+                        'np.linalg.solve is a parameter of the model: ANY solution of the assembled system satisfies the ODEs'])
+
+EQV_ALL = ['Axis', 'R1d', 'GradB', 'R2', 'Mercier', 'GGB', 'R3', 'RSing']
+EQV_PARTIAL = ['the equivariance theorems are stated for the formula stages (every generated definition) under hypotheses on the operators (D commutes with the re-indexing up to the sign s3, sums scale by kappa, ...): that the spectral matrix satisfies them follows from C20Spec (circulant, antisymmetric) but the instantiation is not yet a Lean theorem',
+               'equality of the two COMPUTED Newton solutions / linear solves needs local uniqueness and convergence: measured by the oracle (1e-7), not proved']
+
+PROPS['C05'] = dict(
+    lean=['QscProofs.Eqv', 'QscProofs.C20Spec', 'QscProofs.C03Axis'], theorems=eqv_theorems(EQV_ALL) + ['C20Spec.toep_circulant', 'C03Axis.f0_periodic'],
+    gen=EQV_ALL, eqv=EQV_ALL, corr=corr_generated(['Axis', 'R1d', 'R2', 'R3']), oracle=oracle_multi(oracles.oracle_C05),
+    rule=RULE, partial=EQV_PARTIAL + ['phi, varphi and (for helicity != 0) the *_untwisted coefficients are coordinate-dependent: they follow explicit laws (checked by the oracle), not a cyclic shift'])
+PROPS['C06'] = dict(
+    lean=['QscProofs.Eqv', 'QscProofs.C13'], theorems=eqv_theorems(EQV_ALL) + ['C13.counter_mul_four'],
+    gen=EQV_ALL, eqv=EQV_ALL, corr=corr_generated(['Axis', 'R1d', 'R2']), oracle=oracle_multi(oracles.oracle_C06, count=6),
+    rule=RULE + '; nfp = k compared with nfp = 1 at k*nphi for odd k', partial=EQV_PARTIAL + ['the hypothesis that the spectral matrix of the k*n grid restricted to n-periodic data equals the n-grid matrix (D_comp for pi = mod) is assumed, checked numerically'])
+PROPS['C07'] = dict(
+    lean=['QscProofs.Eqv', 'QscProofs.C15', 'QscProofs.C13', 'QscProofs.C20Spec'], theorems=eqv_theorems(EQV_ALL) + ['C15.lasym_iff', 'C15.lasym_false_iff', 'C13.counter_flipZ', 'C13.counter_reverse', 'C20Spec.toep_antisymm'],
+    gen=EQV_ALL, eqv=EQV_ALL, corr=corr_merge(corr_generated(['Axis', 'R1d', 'GradB', 'R2', 'Mercier', 'GGB', 'R3', 'RSing']), corr_hand_kernels(['vmec'])),
+    oracle=oracle_multi(oracles.oracle_C07), rule=RULE, partial=EQV_PARTIAL)
+PROPS['C08'] = dict(
+    lean=['QscProofs.Eqv', 'QscProofs.EqvUse'], theorems=eqv_theorems(EQV_ALL) + ['EqvUse.DMerc_units'],
+    gen=EQV_ALL, eqv=EQV_ALL, corr=corr_generated(['Axis', 'R1d', 'GradB', 'R2', 'Mercier', 'GGB', 'R3', 'RSing']),
+    oracle=oracle_multi(oracles.oracle_C08), rule=RULE, partial=EQV_PARTIAL[1:] + ['r_singularity: the root selection is a hand model; its scaling follows from the scaling of the coefficients (proved) given that the roots scale (contract of polyroots)'])
+
+PROPS['C09'] = dict(
+    lean=['QscProofs.C09'], theorems=thms('QscProofs.C09'), gen=['GradB', 'GradBCart', 'BfieldCyl', 'BfieldCart'],
+    corr=corr_generated(['GradB', 'GradBCart', 'BfieldCyl', 'BfieldCart']), oracle=oracle_multi(oracles.oracle_C09),
+    rule=RULE, partial=[CONTINUUM, 'equality of the Frobenius norm in the three bases is checked numerically (it needs orthonormality of the frame, proved in C03)'])
+
+PROPS['C10'] = dict(
+    lean=['QscProofs.C10', 'QscProofs.C10gen'], theorems=thms('QscProofs.C10') + thms('QscProofs.C10gen.Alt0', 'QscProofs.C10gen.Alt1', 'QscProofs.C10gen.Alt2', 'QscProofs.C10gen.Sym12', 'QscProofs.C10gen.Div', 'QscProofs.C10gen.Sym23', 'QscProofs.C10gen.Harmonic'),
+    gen=['GGB', 'GGBCart'], corr=corr_generated(['GGB', 'GGBCart'], orders=('r2', 'r3')), oracle=oracle_multi(oracles.oracle_C10, orders=('r2', 'r3')),
+    rule=RULE, partial=[CONTINUUM, 'the certificates of C10gen were found by a CAS for the formulas of the pinned tree; a harmless algebraic rewrite keeps them valid (they end in ring), a different but equally correct derivation may need new certificates',
+                        'basis clause (cylindrical/Cartesian variants): known finding K1'])
+
+PROPS['C11'] = dict(
+    lean=['QscProofs.C11', 'QscProofs.C01'], theorems=thms('QscProofs.C11') + ['C01.r3_J_avg', 'C01.r2_J_R1'], gen=['Mercier', 'R2', 'R3'],
+    corr=corr_generated(['Mercier'], orders=('r2', 'r3')), oracle=oracle_multi(oracles.oracle_C11, oracles.oracle_C11_geometric, orders=('r2', 'r3')),
+    rule=RULE, partial=[CONTINUUM, "the geometric clause (d2_volume_d_psi2 = V'') is the chain [J]_2 = 0, <[J]_3> = 0 (C01, proved) + linearity of the period integral; the final integration step is checked numerically by integrating the Jacobian of the returned position vector"])
+
+PROPS['C12'] = dict(
+    lean=['QscProofs.C12'], theorems=thms('QscProofs.C12') + ['RSing.g_coeffs_are_triple_product'], gen=['RSing'],
+    corr=corr_merge(corr_generated(['RSing'], orders=('r2', 'r3')), corr_hand_kernels(['rsing'])), oracle=oracle_multi(oracles.oracle_C12, orders=('r2', 'r3')),
+    rule=RULE, partial=['completeness ("smallest r > 0 over all theta") depends on numpy polyroots returning all roots and on the 1e-5/1e-7/1e-13 tolerance filters: C12.reported_le_singular proves it under explicit hypotheses on the roots; the rest is measured against a direct scan over theta'])
+
+PROPS['C13'] = dict(
+    lean=['QscProofs.C13', 'QscProofs.C03'], theorems=thms('QscProofs.C13') + ['C03.untwist_h0', 'C03.untwist_same_surface_1'], gen=['R1d', 'R2', 'R3', 'BmagCyl', 'BmagBoozer'],
+    corr=corr_merge(corr_generated(['R1d', 'BmagCyl', 'BmagBoozer']), corr_hand_kernels(['helicity'])), oracle=oracle_multi(oracles.oracle_C13),
+    rule=RULE, partial=['the cubic-spline interpolants (nu_spline, B20_spline) are parameters with the contract stated in C13.Bmag_agree; "helicity = winding number" needs the grid to resolve the rotation (consecutive quadrants differ by at most one step): explicit hypothesis of C13.counter_winding'])
+
+PROPS['C14'] = dict(
+    lean=['QscProofs.C14', 'QscProofs.C14Fourier'], theorems=thms('QscProofs.C14') + ['C14Fourier.roundtrip', 'C14Fourier.kernel', 'C14Fourier.D_grid'], gen=['F2C1', 'F2CRes', 'ToRZ'],
+    corr=corr_merge(corr_generated(['F2C1', 'F2CRes', 'ToRZ']), corr_hand_kernels(['tofourier'])), oracle=oracle_multi(oracles.oracle_C14),
+    rule=RULE + '; Fourier round trip on random grids of every parity with mode ranges at and beyond the Nyquist index',
+    partial=['cubic-spline interpolation error (1e-5, nphi^-3), adequacy of the root bracket +-1/nfp and agreement with the Fortran reference files are numerical: measured, not proved (the Fortran files are compared by the repository test-suite)'])
+
+PROPS['C15'] = dict(
+    lean=['QscProofs.C15'], theorems=thms('QscProofs.C15'), gen=[],
+    corr=corr_hand_kernels(['vmec']), oracle=oracle_multi(oracles.oracle_C15),
+    rule=RULE + '; export after a set_dofs history with probability 1/2; ntheta in {6,7,10}, overrides of mpol/ntor with probability 0.4',
+    partial=['Fortran namelist syntax is checked by parsing the written file with a minimal namelist reader (harness), not by a theorem'])
+
+PROPS['C16'] = dict(
+    lean=['QscProofs.C16', 'QscProofs.C03Axis'], theorems=['C16.dofs_layout', 'C16.set_get_roundtrip', 'C16.get_set_roundtrip', 'C16.set_wrong_length', 'C16.history_eq_fresh', 'C16.hpad_needed', 'C16.snapshot_padInvariant',
+                                      'C16.no_caller_alias', 'C16.view_alias', 'C16.ctor_validation', 'C16.even_nphi_promoted', 'C16.construct_good', 'C16.advertised_accepted', 'C16.branches_disjoint',
+                                      'C16.else_raises', 'C16.caller_kwargs_win', 'C16.returns_constructor_call', 'C16.no_problems', 'C16.accepted_not_advertised', 'C16.advertised_subset_accepted', 'C16.advertised_ne_accepted',
+                                      'C03Axis.f0_append_zero', 'C03Axis.f1_append_zero', 'C03Axis.f2_append_zero', 'C03Axis.f3_append_zero'],
+    gen=['Configs'], corr=corr_hand_kernels(['dof']),
+    oracle=lambda ctx: oracles.oracle_C16([x for o in ('r1', 'r2', 'r3') for x in ctx.objects(o, count=1 if not ctx.thorough else 3, nphi=15)], nhist=2 if not ctx.thorough else 4, hlen=4 if not ctx.thorough else 8, n_named=None if ctx.thorough else 5, seed=ctx.seed).out(),
+    rule='seeded histories over {set_dofs(x) with later mutation of x, change_nfourier up/down, calculate(), get_dofs() with mutation of the result, set_dofs(get_dofs())} on objects of every order; named configurations with overrides; invalid names and sign flags',
+    partial=['history_eq_fresh needs the pipeline to be invariant under appending zero harmonics (change_nfourier to a larger size does not recalculate): proved for the axis Fourier sums (C03Axis.f*_append_zero), assumed for the rest of the pipeline (which reads only those sums)',
+             'advertised = accepted: known finding K2 (negation proved: C16.advertised_ne_accepted)'])
+
+PROPS['C17'] = dict(
+    lean=['QscProofs.C17'], theorems=thms('QscProofs.C17'), gen=['Effects'],
+    corr=corr_diag_sequences, oracle=oracle_diag,
+    rule='seeded call sequences over the evaluation/plotting/export/diagnostic methods (Agg backend) on objects of every order and on a configuration whose singularity profile carries the sentinel; every attribute snapshotted bit for bit around every call',
+    partial=['the effect table is extracted by a conservative intra-/inter-procedural AST alias analysis of the current source; that every method respects its extracted summary is checked dynamically (observed changes within the summary), not proved',
+             'plot_axis needs mayavi, which is not installed in this sandbox: covered statically only'])
+
+PROPS['C18'] = dict(
+    lean=['QscProofs.C16', 'QscProofs.C20Spec', 'QscProofs.C20Interp'], theorems=['C16.even_nphi_promoted', 'C20Spec.D_exact_sin', 'C20Spec.D_exact_cos', 'C20Interp.interp_exact_sin', 'C20Interp.interp_exact_cos'],
+    gen=[], corr=corr_hand_kernels(['specdiff', 'dof']), oracle=oracle_multi(oracles.oracle_C18),
+    rule=RULE + '; each case rebuilt with nphi - 1 (even) and on the ladder 31, 63, 127',
+    partial=['the quantitative convergence statements (1e-8 once resolved; second order for grid extrema and the trapezoid angle) are analysis: decided numerically on a resolution ladder and labelled as such (level "other" for that clause); proved: the promotion of even nphi and the exactness of the differentiation matrix and of the interpolant on every resolvable mode, which is the structural reason for spectral convergence'])
+
+PROPS['C19'] = dict(
+    lean=['QscProofs.C19', 'QscProofs.Eqv'], theorems=thms('QscProofs.C19') + eqv_theorems(['Shear']),
+    gen=['Shear'], eqv=['Shear'], corr=corr_merge(corr_generated(['Shear'], orders=('r3',), shear=True), corr_hand_kernels(['shear'])),
+    oracle=oracle_multi(oracles.oracle_C19, orders=('r3',), count=3),
+    rule=RULE, partial=['field reversal: known finding K3 (the equivariance engine finds no law for Z31c, Z31s, X31c, X31s, Y31s, LamTilde: they mix terms of different parity under (sG, spsi, I2) -> -(sG, spsi, I2))',
+                        'origin- and nfp-independence of the non-symmetric (trapezoid) branch, continuity across the branch switch and convergence hold to discretisation error: measured on a resolution ladder'])
+
+PROPS['C20'] = dict(
+    lean=['QscProofs.C20Spec', 'QscProofs.C20Interp', 'QscProofs.C20Fmin', 'QscProofs.C20Newton'],
+    theorems=thms('QscProofs.C20Spec', 'QscProofs.C20Interp', 'QscProofs.C20Fmin', 'QscProofs.C20Newton'),
+    gen=[], corr=corr_hand_kernels(['specdiff', 'interp', 'fmin', 'newton']), oracle=oracle_kernels,
+    rule='spectral matrix for every n in 1..200 (thorough) / 1..32 + seeded larger n (quick) on several intervals; interpolation at random abscissae incl. exact nodes; fourier_minimum on smooth, constant, near-constant, random and tied data; Newton on smooth systems, perturbed Jacobians, stalls, NaN/inf episodes (scripted residual streams)',
+    partial=['interpolation exactness for even N (cot kernel) and the node guard eps*(D==0) are floating-point matters: measured', 'scipy minimize_scalar (Brent) is a parameter with the contract "result <= f(middle of the bracket)"', 'convergence of Newton on smooth well-posed systems is analysis: checked on seeded systems'])
 
 
 def matches_known(k, failure):
